@@ -5,7 +5,7 @@ from __future__ import annotations
 import ast
 import math
 
-from sa.core import AnalysisError, Report, loc, norm_src, enclosing_function
+from sa.core import AnalysisError, Report, loc, norm_src, enclosing_function, canon_locals, canon_src
 from sa.paths import dotted, calls_in, call_name
 from sa.domfacts import dominating_facts
 
@@ -97,9 +97,29 @@ def run(repo, tier):
     )
     r.trusted_base = ["Python ast", "dominance in structured code (sa/domfacts.py)"]
     r.rule("R19.1", "real_samples: every `// (num - 1)` has num - 1 != 0 and every negative index has enough elements, on all dominating facts", floor=5)
+    r.rule("R19.3", "real_samples: every returning path whose value is built from min_value/max_value passes the include_subnormal bound adjustment first", floor=1)
     r.rule("R19.2", "product generators forward every shared option unchanged and axis k's size/bounds to the k-th inner call", floor=30)
 
     f = repo.func(REL, "real_samples")
+    cn = canon_locals(f)
+    # arrays whose length is the sample count: built from `... for i in range(0, COUNT * step, step)` or a call with num=COUNT
+    count_of = {}
+    for st in ast.walk(f):
+        if isinstance(st, ast.Assign) and len(st.targets) == 1 and isinstance(st.targets[0], ast.Name):
+            for x in ast.walk(st.value):
+                cnt = None
+                if isinstance(x, ast.comprehension) and isinstance(x.iter, ast.Call) and dotted(x.iter.func) == "range" and len(x.iter.args) == 3:
+                    stop, step = x.iter.args[1], x.iter.args[2]
+                    if isinstance(stop, ast.BinOp) and isinstance(stop.op, ast.Mult) and isinstance(step, ast.Name):
+                        others = [o for o in (stop.left, stop.right) if not (isinstance(o, ast.Name) and o.id == step.id)]
+                        if len(others) == 1 and isinstance(others[0], ast.Name):
+                            cnt = others[0].id
+                if isinstance(x, ast.Call):
+                    for kw in x.keywords:
+                        if kw.arg == "num" and isinstance(kw.value, ast.Name):
+                            cnt = kw.value.id
+                if cnt:
+                    count_of.setdefault(st.targets[0].id, set()).add(cnt)
     sites = 0
     for n in ast.walk(f):
         if isinstance(n, ast.BinOp) and isinstance(n.op, (ast.FloorDiv, ast.Div, ast.Mod)):
@@ -110,10 +130,10 @@ def run(repo, tier):
                 lo, hi = interval_at(n, f, var)
                 ok = not (lo <= c <= hi)
                 # which enclosing branch (for a stable key)
-                br = _branch_key(n, f)
+                br = _branch_key(n, f, cn)
                 r.ob(
                     "R19.1",
-                    f"{REL}::real_samples divisor `{norm_src(d)}` in branch [{br}]",
+                    f"{REL}::real_samples divisor `{canon_src(d, cn)}` in branch [{br}]",
                     ok,
                     f"`{norm_src(n)}`: nothing that dominates this statement excludes {var} == {c} (interval of {var} here: [{lo}, {hi}]); "
                     f"with {var} == {c} the comprehension runs once and divides by zero — reachable through the recursive calls with size=neg_num/pos_num",
@@ -122,20 +142,26 @@ def run(repo, tier):
         if isinstance(n, ast.Subscript) and isinstance(n.slice, ast.UnaryOp) and isinstance(n.slice.op, ast.USub) and isinstance(n.slice.operand, ast.Constant):
             k = n.slice.operand.value
             arr = dotted(n.value)
-            if arr != "finite_positive":
+            if arr not in count_of:
                 continue
+            if len(count_of[arr]) != 1:
+                raise AnalysisError(f"real_samples: array {arr} is built with different counts {sorted(count_of[arr])}")
+            cvar = next(iter(count_of[arr]))
             sites += 1
-            lo, hi = interval_at(n, f, "num")
+            lo, hi = interval_at(n, f, cvar)
             ok = lo >= k
             r.ob(
                 "R19.1",
-                f"{REL}::real_samples index `{norm_src(n)}`",
+                f"{REL}::real_samples index `{canon_src(n, cn)}`",
                 ok,
-                f"`{norm_src(n)}` needs at least {k} element(s) but the array has `num` elements and nothing dominating the statement gives num >= {k} (interval [{lo}, {hi}])",
+                f"`{norm_src(n)}` needs at least {k} element(s) but the array has `{cvar}` elements and nothing dominating the statement gives {cvar} >= {k} (interval [{lo}, {hi}])",
                 loc(REL, n),
             )
     if sites < 5:
         raise AnalysisError(f"real_samples: only {sites} divisor/index sites recognised (expected 5)")
+
+    # ------------------------------------------------------------------ R19.3 bounds are adjusted before they are used
+    check_bounds_adjusted_before_use(r, repo, f)
 
     # ------------------------------------------------------------------ R19.2
     callee_params = {}
@@ -185,10 +211,24 @@ def run(repo, tier):
                         ok = want in txt and p.split("_")[0] in txt
                         detail = f"{p}={txt}: the {'real' if k == 0 else 'imaginary'} axis must receive the {want} bound of the same side"
                     else:
-                        base = {"min_value": "min_values", "max_value": "max_values", "min_real_value": "min_real_values", "max_real_value": "max_real_values",
-                                "min_imag_value": "min_imag_values", "max_imag_value": "max_imag_values"}[p]
-                        ok = isinstance(a, ast.Subscript) and dotted(a.value) == base and isinstance(a.slice, ast.Constant) and a.slice.value == k
-                        detail = f"{p}={txt}: expected {base}[{k}]"
+                        # the k-th component of the per-axis sequence made from the wrapper's parameter of the same name
+                        src_param = None
+                        if isinstance(a, ast.Subscript) and isinstance(a.value, ast.Name):
+                            defs = [st for st in ast.walk(g) if isinstance(st, ast.Assign) and any(isinstance(t, ast.Name) and t.id == a.value.id for t in st.targets)]
+                            srcs = set()
+                            for df in defs:
+                                v = df.value
+                                if isinstance(v, ast.Call) and (call_name(v) or "").endswith("_fix_limit_value") and v.args:
+                                    srcs.add(dotted(v.args[0]))
+                                else:
+                                    # (None,) * n, (param,) * n or param itself: every parameter the definition reads
+                                    srcs |= {x.id for x in ast.walk(v) if isinstance(x, ast.Name) and x.id in wparams}
+                            if not defs and a.value.id in wparams:
+                                srcs.add(a.value.id)
+                            if len(srcs) == 1:
+                                src_param = next(iter(srcs))
+                        ok = isinstance(a, ast.Subscript) and src_param == p and isinstance(a.slice, ast.Constant) and a.slice.value == k
+                        detail = f"{p}={txt}: expected component {k} of the per-axis sequence made from the wrapper's `{p}` (found source `{src_param}`)"
                     r.ob("R19.2", f"{REL}::{w} call {k} {p}", ok, detail, loc(REL, c))
             # bounds present at all
             need = [p for p in cparams if p in AXIS and p != "size"]
@@ -198,12 +238,48 @@ def run(repo, tier):
     return r
 
 
-def _branch_key(node, func):
+def check_bounds_adjusted_before_use(r, repo, f, rule="R19.3"):
+    """Every returning path of real_samples whose result is built from min_value/max_value has passed the
+    `include_subnormal` decision (the block that moves subnormal bounds to zero / the smallest normal) before the
+    first statement that produces output from the bounds; otherwise a subnormal bound reaches the output although
+    subnormals were not requested (and the degenerate-interval exit sees unadjusted bounds)."""
+    from sa.paths import enumerate_paths
+    from sa.defuse import origins
+
+    BOUNDS = {"min_value", "max_value"}
+
+    def mentions(test):
+        return any(isinstance(x, ast.Name) and x.id == "include_subnormal" for x in ast.walk(test))
+
+    if not any(isinstance(x, (ast.If, ast.While, ast.IfExp)) and mentions(x.test) for x in ast.walk(f)):
+        raise AnalysisError("real_samples: no decision on include_subnormal found")
+    # only the paths that never take a decision on include_subnormal are enumerated
+    npaths = 0
+    bad = {}
+    for path in enumerate_paths(f, unroll=(0, 1), limit=400000, cut=mentions):
+        npaths += 1
+        if path.exit != "return":
+            continue
+        ev_ = path.events
+        last = ev_[-1]
+        if not (last.kind == "stmt" and isinstance(last.node, ast.Return) and last.node.value is not None):
+            continue
+        org = origins(last.node.value, ev_, len(ev_) - 1)
+        if any(k[0] == "name" and k[1] in BOUNDS for k in org):
+            bad.setdefault(last.node.lineno, last.node)
+    for ln, node in sorted(bad.items()):
+        r.ob(rule, f"{REL}::real_samples `{norm_src(node)[:60]}` after the subnormal-bound adjustment", False,
+             "a path reaches this return without having tested include_subnormal: the bounds it uses were not moved out of the subnormal range", loc(REL, node))
+    if not bad:
+        r.ob(rule, f"{REL}::real_samples returns use adjusted bounds", True, f"none of the {npaths} paths that avoid the include_subnormal decision returns a value built from the bounds", loc(REL, f))
+
+
+def _branch_key(node, func, cn=None):
     conds = []
     for test, pol, _ in dominating_facts(node, func):
         par = getattr(test, "_parent", None)
         if isinstance(par, ast.If) and any(node is x or _contains(x, node) for x in par.body + par.orelse):
-            conds.append(("" if pol else "not ") + norm_src(test))
+            conds.append(("" if pol else "not ") + (canon_src(test, cn) if cn else norm_src(test)))
     return " & ".join(reversed(conds[:3]))
 
 
